@@ -864,6 +864,6 @@ fn main() {
                "skipped": skipped, "by_svc": by_svc, "ok_results": connects_ok, "panics": panics,
                "leftover_accepts": env.leftovers,
                "env": {"ipv6_loopback": env.have_v6, "local_bind_127_0_0_2": env.have_bind, "errno": errno,
-                       "host_type": if static_host { "&'static str" } else { "String" }}})
+                       "seed": seed, "host_type": if static_host { "&'static str" } else { "String" }}})
     );
 }
